@@ -91,6 +91,10 @@ impl Violation {
         self.tags.push(t.into());
         self
     }
+    pub fn tags(mut self, t: Vec<String>) -> Self {
+        self.tags.extend(t);
+        self
+    }
     pub fn has_tag(&self, t: &str) -> bool {
         self.tags.iter().any(|x| x == t)
     }
